@@ -56,7 +56,8 @@ fn real_path(base: &Path, p: &str) -> PathBuf {
     let mut s = base.to_string_lossy().to_string();
     for c in comps(p) {
         s.push('/');
-        s.push_str(c);
+        // `~` in an op line stands for a space in the real file name (op lines are split at spaces)
+        s.push_str(&c.replace('~', " "));
     }
     PathBuf::from(s)
 }
@@ -124,7 +125,7 @@ fn show_inv(rows: &Option<Vec<DbRow>>, s0: u64) -> String {
         Some(r) => r
             .iter()
             .map(|(p, sz, ct, at)| {
-                let rel = if p.is_empty() { "." } else { p.as_str() };
+                let rel = if p.is_empty() { ".".to_string() } else { p.replace(' ', "~") };
                 format!("{rel}:{sz}:{}:{}", show_time(*ct, s0), show_time(*at, s0))
             })
             .collect::<Vec<_>>()
@@ -138,7 +139,7 @@ fn list_fs(base: &Path) -> Vec<String> {
         for e in rd.filter_map(Result::ok) {
             let p = e.path();
             let Ok(md) = std::fs::symlink_metadata(&p) else { continue };
-            let rel = p.strip_prefix(base).unwrap().to_string_lossy().to_string();
+            let rel = p.strip_prefix(base).unwrap().to_string_lossy().replace(' ', "~");
             if md.file_type().is_symlink() {
                 v.push(format!("/{rel}@"));
             } else if md.is_dir() {
@@ -173,6 +174,43 @@ fn set_times(p: &Path, secs: u64) {
     }
 }
 
+/// A task that occupies the runtime's only blocking thread until it is released. `tokio::fs::remove_file`
+/// runs on that thread, so the eviction pass is parked — after its selection, with the inventory mutex
+/// released — exactly before its next `unlink` (quota_manager.rs:258) for as long as the gate is closed.
+/// The blocking queue is FIFO: a gate queued while the pass waits for `remove_file(a)` runs right after
+/// that unlink, which lets the harness step the pass one file at a time without touching the code under
+/// test.
+struct Gate {
+    release: std::sync::mpsc::Sender<()>,
+    started: std::sync::mpsc::Receiver<()>,
+}
+
+impl Gate {
+    fn queue(rt: &tokio::runtime::Runtime) -> Gate {
+        let (release, wait) = std::sync::mpsc::channel::<()>();
+        let (tell, started) = std::sync::mpsc::channel::<()>();
+        rt.spawn_blocking(move || {
+            let _ = tell.send(());
+            let _ = wait.recv();
+        });
+        Gate { release, started }
+    }
+    fn wait_started(&self) {
+        let _ = self.started.recv();
+    }
+    fn open(self) {
+        let _ = self.release.send(());
+    }
+}
+
+/// A task spawned from outside the runtime goes to the back of the single worker's injection queue, behind
+/// every wake-up that was issued before: when it has run, the eviction task has processed its last wake-up
+/// and is parked again (at the gate, or waiting for the next trigger).
+fn marker(rt: &tokio::runtime::Runtime) {
+    let h = rt.spawn(async {});
+    let _ = rt.block_on(h);
+}
+
 struct Live {
     qm: QuotaManager,
     n: QuotaManagerNotifier,
@@ -189,6 +227,9 @@ struct Run<'a> {
     max_size: Option<u64>,
     /// an `evictrace` op left the state unchanged (the stop signal won the `select!`, or nothing to do)
     race_noop: bool,
+    /// `passbegin` … `passend`: the pass is being stepped
+    gate: Option<Gate>,
+    pass_before: Option<Vec<DbRow>>,
 }
 
 impl<'a> Run<'a> {
@@ -275,7 +316,57 @@ impl<'a> Run<'a> {
         }
         let s0 = self.s0;
         let rt = std::sync::Arc::clone(&self.rt);
+        if self.gate.is_some()
+            && matches!(w[0], "open" | "close" | "restart" | "evict" | "evictasync" | "evictrace" | "bulk" | "passbegin")
+        {
+            let (inv, fs) = self.snapshot();
+            return format!("bad | {} | {}", show_inv(&inv, s0), show_fs(&fs));
+        }
         let status: String = match w[0] {
+            "passbegin" => match &self.live {
+                None => "nomgr".into(),
+                Some(l) => {
+                    let g = Gate::queue(&rt);
+                    g.wait_started();
+                    l.n.trigger_eviction_if_needed();
+                    marker(&rt);
+                    self.gate = Some(g);
+                    self.pass_before = read_db(&self.db);
+                    "ok".into()
+                }
+            },
+            "passstep" => match self.gate.take() {
+                None => "bad".into(),
+                Some(old) => {
+                    let g = Gate::queue(&rt);
+                    old.open();
+                    g.wait_started();
+                    marker(&rt);
+                    self.gate = Some(g);
+                    self.stats.bump("pass_steps");
+                    "ok".into()
+                }
+            },
+            "passend" => match self.gate.take() {
+                None => "bad".into(),
+                Some(old) => {
+                    old.open();
+                    let st = self.close();
+                    let after = read_db(&self.db);
+                    let before = self.pass_before.take();
+                    self.note_evict(&before, &after, st, "stepped_pass");
+                    st.into()
+                }
+            },
+            // observation only (not generated, not modelled): the database inside the managed root
+            "opendb" if w.len() == 3 => {
+                if self.live.is_some() {
+                    "bad".into()
+                } else {
+                    self.db = real_path(&self.base, w[2]);
+                    if self.open(w[1]) { "ok".into() } else { "openerr".into() }
+                }
+            }
             "open" if w.len() >= 2 => {
                 if self.live.is_some() {
                     "bad".into()
@@ -528,7 +619,7 @@ fn run_once(ops: &[String], stats: &mut Stats) -> Once {
         std::thread::sleep(Duration::from_millis(20));
     }
     let s0 = now_secs();
-    let rt = std::sync::Arc::new(tokio::runtime::Builder::new_multi_thread().worker_threads(1).enable_all().build().unwrap());
+    let rt = std::sync::Arc::new(tokio::runtime::Builder::new_multi_thread().worker_threads(1).max_blocking_threads(1).enable_all().build().unwrap());
     let mut local = Stats::default();
     let mut run = Run {
         base: dir.join("b"),
@@ -539,10 +630,15 @@ fn run_once(ops: &[String], stats: &mut Stats) -> Once {
         stats: &mut local,
         max_size: None,
         race_noop: false,
+        gate: None,
+        pass_before: None,
     };
     let mut out = Vec::with_capacity(ops.len());
     for l in ops {
         out.push(run.exec(l));
+    }
+    if let Some(g) = run.gate.take() {
+        g.open();
     }
     if run.live.is_some() {
         let _ = run.close();
@@ -584,8 +680,11 @@ struct Gen<'r> {
 }
 
 // "A" / "B" are different files from "a" / "b" (paths are compared byte for byte)
-const NAMES: [&str; 10] = ["a", "b", "c", "d", "e", "f", "g", "h", "A", "B"];
-const DIRS: [&str; 6] = ["", "", "d1/", "d2/", "d1/n/", "D1/"];
+// also: SQL `LIKE` wildcards, a space (`~`), non-ASCII, and names that are prefixes of one another in the same
+// directory (`a` / `ab` / `a%` / `a_`): keys are compared as whole strings, never as patterns or prefixes
+const NAMES: [&str; 18] =
+    ["a", "b", "c", "d", "e", "f", "g", "h", "A", "B", "ab", "a%", "a_", "%", "_", "a~b", "é", "名"];
+const DIRS: [&str; 8] = ["", "", "d1/", "d2/", "d1/n/", "D1/", "d%/", "d1~x/"];
 
 impl<'r> Gen<'r> {
     fn new(rng: &'r mut Rng) -> Self {
@@ -1127,6 +1226,106 @@ fn gen_large(rng: &mut Rng, tier: Tier) -> Vec<String> {
     g.ops
 }
 
+/// Is the known finding `id` recorded in `$VERIF_ROOT/KNOWN_FINDINGS.txt`? (the input family that exposes a
+/// candidate finding is generated only then; `C15_FORCE_FINDING_FAMILIES=1` generates it regardless)
+fn known_listed(id: &str) -> bool {
+    static TEXT: std::sync::OnceLock<String> = std::sync::OnceLock::new();
+    if std::env::var("C15_FORCE_FINDING_FAMILIES").is_ok() {
+        return true;
+    }
+    let text = TEXT.get_or_init(|| {
+        let root = std::env::var("VERIF_ROOT").unwrap_or_else(|_| "/verif".to_string());
+        std::fs::read_to_string(PathBuf::from(root).join("KNOWN_FINDINGS.txt")).unwrap_or_default()
+    });
+    text.lines().any(|l| l.starts_with("known:") && l.contains(&format!("\"id\":\"{id}\"")))
+}
+
+const RACE_FINDING: &str = "C15-race-recreated-file-deleted";
+
+/// The lock gap: a pass stepped one `remove_file` at a time (`passbegin` / `passstep` / `passend`) with
+/// notifications and external file-system activity of "other tasks" in between: `accessed` for any file
+/// (candidates included), `deleted`, external `rm`, and `created` for brand-new files. A `created` report for a
+/// file that is already recorded (re-download) is the candidate finding RACE_FINDING and is generated only when
+/// that id is listed in KNOWN_FINDINGS.txt.
+fn gen_gap(rng: &mut Rng) -> Vec<String> {
+    let mut g = Gen::new(rng);
+    g.prelude(false, 0);
+    let with_age = g.rng.chance(1, 4);
+    if !with_age {
+        g.agos.retain(|a| *a > 0);
+    }
+    let nfiles = g.rng.range(3, 8);
+    for _ in 0..nfiles {
+        g.create_new();
+    }
+    if g.rng.chance(1, 4) {
+        // a stale row: its file is already missing
+        let fs = g.root_files();
+        if !fs.is_empty() {
+            let p = g.rng.pick(&fs).clone();
+            g.rm(&p);
+        }
+    }
+    let v = g.pick_max_size();
+    g.ops.push(format!("maxsize {v}"));
+    if with_age {
+        let v = g.pick_max_age();
+        g.ops.push(format!("maxage {v}"));
+    }
+    g.ops.push("passbegin".to_string());
+    let steps = g.rng.range(0, 6);
+    let mut fresh = 0;
+    let finding = known_listed(RACE_FINDING);
+    for _ in 0..steps {
+        let k = g.rng.range(0, 2);
+        for _ in 0..k {
+            match g.rng.below(if finding { 8 } else { 7 }) {
+                0..=2 => g.access(),
+                3 => {
+                    let p = format!("/root/new{fresh}");
+                    fresh += 1;
+                    g.mkfile(&p);
+                    let (s, a) = (g.size(), g.ago());
+                    g.ops.push(format!("created {p} {s} {}", tok(a)));
+                }
+                4 => {
+                    let fs = g.root_files();
+                    if !fs.is_empty() {
+                        let p = g.rng.pick(&fs).clone();
+                        g.ops.push(format!("deleted {p}"));
+                    }
+                }
+                5 => {
+                    let fs = g.root_files();
+                    if !fs.is_empty() {
+                        let p = g.rng.pick(&fs).clone();
+                        g.rm(&p);
+                    }
+                }
+                6 => g.settings(),
+                _ => {
+                    // re-download of a recorded file while the pass runs
+                    let keys: Vec<String> = g.inv.keys().cloned().collect();
+                    if !keys.is_empty() {
+                        let p = g.rng.pick(&keys).clone();
+                        g.mkfile(&p);
+                        let s = g.size();
+                        g.ops.push(format!("created {p} {s} n-0"));
+                    }
+                }
+            }
+        }
+        g.ops.push("passstep".to_string());
+    }
+    g.ops.push("passend".to_string());
+    g.ops.push("open /root".to_string());
+    if g.rng.chance(1, 2) {
+        g.ops.push("evict".to_string());
+    }
+    g.ops.push("close".to_string());
+    g.ops
+}
+
 /// `trigger_eviction_if_needed` directly followed by `finish()` with at least two files to delete
 /// (reviewer's blind spot 2: a `finish()` that cuts the pass short); no max age, so that the case may be
 /// repeated across clock ticks
@@ -1158,7 +1357,8 @@ fn gen_race(rng: &mut Rng) -> Vec<String> {
 
 fn gen_case(rng: &mut Rng, index: u64, tier: Tier) -> Vec<String> {
     let profile = match index % 40 {
-        0..=15 => 0,  // plain LRU histories
+        0..=13 => 0,  // plain LRU histories
+        14 | 15 => return gen_gap(rng),
         16..=21 => 1, // + external deletions
         22..=27 => 2, // + odd paths (outside the root, `..`, symlinks, directories)
         28..=31 => 3, // pre-populated database
@@ -1345,6 +1545,38 @@ impl Prop for C15 {
             "mkdir /root", "open /root", "mkfile /root/a", "mkfile /root/b", "mkfile /root/c", "mkfile /root/d",
             "created /root/a 10 n+3600", "created /root/b 20 n-0", "created /root/c 30 n+1", "created /root/d 5 n-1",
             "maxage 0", "evict", "maxsize 40", "evict", "maxage 1", "maxsize 10", "evict", "close",
+        ]));
+        // the lock gap: reports that land between the selection and a delete (accessed: the candidate is still
+        // deleted = "pass, then report"; a brand-new file; a report for a file the pass has just deleted)
+        v.push(fixed("f-gap-accessed", &[
+            "mkdir /root", "open /root", "mkfile /root/a", "mkfile /root/b", "mkfile /root/c",
+            "created /root/a 10 n-3000", "created /root/b 10 n-2000", "created /root/c 10 n-1000", "maxsize 10",
+            "passbegin", "accessed /root/b n-0", "mkfile /root/d", "created /root/d 5 n-0", "passstep",
+            "accessed /root/a n-0", "accessed /root/c n-1", "deleted /root/b", "passstep", "passstep", "passend",
+            "open /root", "evict", "close",
+        ]));
+        v.push(fixed("f-gap-age-phase", &[
+            "mkdir /root", "open /root", "mkfile /root/a", "mkfile /root/b", "mkfile /root/c",
+            "created /root/a 10 n-3000", "created /root/b 10 n-2000", "created /root/c 10 n-1000", "maxsize 20",
+            "maxage 1500", "passbegin", "accessed /root/b n-5", "passstep", "rm /root/c", "passstep", "passend",
+            "open /root", "close",
+        ]));
+        if known_listed(RACE_FINDING) {
+            v.push(fixed("x-gap-recreated", &[
+                "mkdir /root", "open /root", "mkfile /root/a", "mkfile /root/b", "mkfile /root/p",
+                "created /root/p 10 n-3000", "created /root/a 10 n-2000", "created /root/b 10 n-1000", "maxsize 20",
+                "passbegin", "mkfile /root/p", "created /root/p 10 n-0", "passstep", "passend", "open /root", "close",
+            ]));
+        }
+        // names: SQL wildcards, a space, non-ASCII, names that are prefixes of one another
+        v.push(fixed("f-names", &[
+            "mkdir /root", "open /root", "mkfile /root/a", "mkfile /root/ab", "mkfile /root/a%", "mkfile /root/a_",
+            "mkfile /root/%", "mkfile /root/_", "mkfile /root/a~b", "mkfile /root/é/名", "mkfile /root/a.d/x",
+            "created /root/ab 10 n-9000", "created /root/a 10 n-8000", "created /root/a% 10 n-7000",
+            "created /root/a_ 10 n-6000", "created /root/% 10 n-5000", "created /root/_ 10 n-4000",
+            "created /root/a~b 10 n-3000", "created /root/é/名 10 n-2000", "created /root/a.d/x 10 n-1000",
+            "accessed /root/% n-100", "deleted /root/_", "maxsize 60", "evict", "accessed /root/a_ n-50",
+            "maxsize 30", "evict", "restart", "maxsize 0", "evict", "close",
         ]));
         // trigger + finish() without waiting: the pass runs completely or not at all
         v.push(fixed("f-race", &[
